@@ -1,32 +1,258 @@
 """C20 - equations of state invert consistently."""
+import ast
 import re
 from fractions import Fraction as Fr
 
-from ..nf import Rat, C
+from ..nf import Rat, Poly, C
 from ..source import Unsupported, AnchorError
-from ..xlate import Interp, Obj, ListV, Elem, Raised
-from .common import same, show, proportional
+from ..xlate import Interp, Frame, Obj, ListV, Elem, Raised, _RaisedExc
+from .common import same, show
+from .rxnfix import get_public
 
 EOS = 'pmutt.eos'
+
+# ---------------------------------------------------------------------------------------------------------------------
+# The quantifier of the property (properties.jsonl), written down once: the box of states and of van der Waals
+# parameters.  Two oracles for comparisons in the analysed code are derived from it:
+#   _Box    decides a comparison only when it has the same outcome for EVERY point of the box (interval arithmetic
+#           over strictly positive quantities) - used by the symbolic passes, anything else stays exit 2;
+#   _Point  decides every comparison at ONE point of the box (a corner, or a CO2-like interior point): a guard that
+#           cuts into the box (assert b < 1e-4, "no liquid volume when the cubic has one real root") raises there.
+# The numbers below place witnesses; they are not compared with anything the code computes.
+KB, NA, UBAR = Fr('1.380649e-23'), Fr('6.02214076e23'), Fr(1, 100000)       # J/K, 1/mol, bar per Pa
+RGAS = KB * NA
+RANGE = {'T': (Fr(50), Fr(3000)), 'P': (Fr(1, 1000), Fr(1000)), 'n': (Fr(1, 1000), Fr(1000)),
+         'a': (Fr(3, 1000), Fr(3)), 'b': (Fr(1, 100000), Fr(2, 10000)), 'Tc': (Fr(5), Fr(1000)),
+         'Pc': (Fr(1), Fr(300))}
+# volumes of the states of the box: n*b < V <= n*(b + R*T/P) (a >= 0), i.e. between 1e-8 and 2.5e5 m3
+V_RANGE = (Fr(1, 10 ** 9), Fr(10 ** 6))
+LEN_REAL = re.compile(r'len<REAL\{ROOT#\d+\}>')      # number of real roots of a cubic: 1 or 3
+LEN_ROOT = re.compile(r'len<ROOT#\d+>')             # number of roots of a cubic
+
+
+def _names(k):
+    """atom names of the k-th state / object ('' for the first, '2' for the second)"""
+    return {'T': 'T' + k, 'P': 'P' + k, 'V': 'V' + k, 'n': 'n' + k, 'a': 'vdw%s.a' % k, 'b': 'vdw%s.b' % k}
+
+
+class _Box:
+    """ordering oracle: true/false when the comparison comes out the same for all points of the box, else None"""
+
+    def __init__(self, ints=False):
+        # critical points: those of the gases of the box, named by their (a, b)
+        self.iv = {'kb': (KB, KB), 'Na': (NA, NA), 'U<bar>': (UBAR, UBAR), 'crit.a': RANGE['a'], 'crit.b': RANGE['b']}
+        for k in ('', '2'):
+            nm = _names(k)
+            for q in ('T', 'P', 'n', 'a', 'b'):
+                lo, hi = RANGE[q]
+                if ints and q in 'TPn':
+                    lo = max(lo, Fr(1))         # whole numbers of the range
+                self.iv[nm[q]] = (lo, hi)
+            self.iv[nm['V']] = (max(V_RANGE[0], Fr(1)), V_RANGE[1]) if ints else V_RANGE
+        self.iv['Vm'] = (RANGE['b'][0], Fr(1000))       # "a root of the cubic": a molar volume, b < Vm <= b + RT/P
+        self.iv['rho'] = (Fr(1, 10 ** 12), 1 / RANGE['b'][0])    # a density n/V on its way to zero
+        self.facts = []
+
+    def fact(self, r, lo, hi):
+        """a value the property itself places in a range: the pressure / temperature of a state of the box that a
+        getter returned and that is substituted back"""
+        if isinstance(r, Rat):
+            self.facts.append((r, lo, hi))
+
+    def interval(self, r):
+        for f, lo, hi in self.facts:
+            if r.eq(f):
+                return lo, hi
+        return None if r.f else self.poly(r.n)
+
+    def atom(self, a):
+        got = self.iv.get(a)
+        if got is None and LEN_REAL.fullmatch(a):
+            return Fr(1), Fr(3)
+        if got is None and LEN_ROOT.fullmatch(a):
+            return Fr(3), Fr(3)
+        return got
+
+    def poly(self, p):
+        lo = hi = Fr(0)
+        for k, c in p.t.items():
+            mlo = mhi = Fr(1)
+            for a, e in k:
+                iv = self.atom(a)
+                if iv is None or Fr(e).denominator != 1:
+                    return None
+                e = int(e)
+                l_, h_ = (iv[0] ** e, iv[1] ** e) if e >= 0 else (iv[1] ** e, iv[0] ** e)
+                mlo, mhi = mlo * l_, mhi * h_
+            if c >= 0:
+                lo, hi = lo + c * mlo, hi + c * mhi
+            else:
+                lo, hi = lo + c * mhi, hi + c * mlo
+        return lo, hi
+
+    @staticmethod
+    def _sgn(iv):
+        if iv is None:
+            return None
+        if iv[0] > 0:
+            return 1
+        if iv[1] < 0:
+            return -1
+        if iv[0] == 0 and iv[1] == 0:
+            return 0
+        return None
+
+    def sign(self, r):
+        """+1 / -1 / 0 when r has that sign on the whole box, else None"""
+        s = self._sgn(self.poly(r.n))
+        if s is None:
+            return None
+        for p, e in r.f.values():
+            ps = self._sgn(self.poly(p))
+            if ps is None or ps == 0:
+                return None
+            if e % 2:
+                s *= ps
+        return s
+
+    def __call__(self, a, op, b):
+        s = self.sign(a - b)
+        if s is None:
+            ia, ib = self.interval(a), self.interval(b)
+            if ia is not None and ib is not None:
+                s = -1 if ia[1] < ib[0] else (1 if ia[0] > ib[1] else None)
+        if s is None:
+            return None
+        return {'<': s < 0, '<=': s <= 0, '>': s > 0, '>=': s >= 0, '==': s == 0, '!=': s != 0}[op]
+
+
+class _Point:
+    """ordering oracle: the comparison evaluated at one point of the box (exact arithmetic)"""
+
+    def __init__(self, T, P, n, a, b, Tc, Pc, label=None):
+        T, P, n, a, b, Tc, Pc = (Fr(str(x)) for x in (T, P, n, a, b, Tc, Pc))
+        P_SI = P / UBAR
+        V = n * (b + RGAS * T / P_SI)             # a volume the gas can have: above n*b, pressure positive
+        # the gas that has this critical point: a = 27 (R Tc)^2 / 64 Pc, b = R Tc / 8 Pc
+        self.val = {'kb': KB, 'Na': NA, 'U<bar>': UBAR, 'crit.a': Fr(27, 64) * (RGAS * Tc) ** 2 / (Pc / UBAR),
+                    'crit.b': RGAS * Tc / 8 / (Pc / UBAR)}
+        nm = _names('')
+        self.val.update({nm['T']: T, nm['P']: P, nm['n']: n, nm['V']: V, nm['a']: a, nm['b']: b, 'Vm': V / n,
+                         'rho': n / V})
+        # number of real roots of the textbook cubic at this point (sign of the discriminant)
+        c3, c2, c1, c0 = P_SI, -(P_SI * b + RGAS * T), a, -a * b
+        disc = 18 * c3 * c2 * c1 * c0 - 4 * c2 ** 3 * c0 + c2 ** 2 * c1 ** 2 - 4 * c3 * c1 ** 3 - 27 * c3 ** 2 * c0 ** 2
+        self.nreal = 3 if disc > 0 else 1
+        self.label = label or 'T=%g P=%g n=%g a=%g b=%g Tc=%g Pc=%g' % tuple(
+            float(x) for x in (T, P, n, a, b, Tc, Pc))
+
+    def atom(self, a):
+        got = self.val.get(a)
+        if got is None and LEN_REAL.fullmatch(a):
+            return Fr(self.nreal)
+        if got is None and LEN_ROOT.fullmatch(a):
+            return Fr(3)
+        return got
+
+    def poly(self, p):
+        tot = Fr(0)
+        for k, c in p.t.items():
+            term = Fr(c)
+            for a, e in k:
+                v = self.atom(a)
+                if v is None or Fr(e).denominator != 1:
+                    return None
+                term *= v ** int(e)
+            tot += term
+        return tot
+
+    def value(self, r):
+        v = self.poly(r.n)
+        if v is None:
+            return None
+        for p, e in r.f.values():
+            d = self.poly(p)
+            if d is None or d == 0:
+                return None
+            v /= d ** e
+        return v
+
+    def __call__(self, a, op, b):
+        va, vb = self.value(a), self.value(b)
+        if va is None or vb is None:
+            return None
+        return {'<': va < vb, '<=': va <= vb, '>': va > vb, '>=': va >= vb, '==': va == vb, '!=': va != vb}[op]
+
+
+def witnesses(tier):
+    """points of the box at which the passes with decided comparisons run: every quantity at its lower and at its
+    upper end at least once, sub- and supercritical, one and three real roots; thorough: all corners of (T,P,n,a,b)"""
+    lo = {k: v[0] for k, v in RANGE.items()}
+    hi = {k: v[1] for k, v in RANGE.items()}
+    pts = [
+        # CO2 inside the van der Waals loop (three real roots), critical point of CO2
+        _Point(250, 30, 2, '0.364', '4.27e-5', '304.13', '73.77'),
+        # cold, dilute, strongly attracting, small molecules / helium-like critical point
+        _Point(lo['T'], lo['P'], lo['n'], hi['a'], lo['b'], lo['Tc'], lo['Pc']),
+        # hot, dense, weakly attracting, large molecules / the upper corner of the critical points
+        _Point(hi['T'], hi['P'], hi['n'], lo['a'], hi['b'], hi['Tc'], hi['Pc']),
+        # cold and dense with the largest co-volume / n-hexane-like critical point (b = 1.74e-4)
+        _Point(lo['T'], hi['P'], hi['n'], lo['a'], hi['b'], '507.6', '30.25'),
+        # hot and dilute, a and b at their upper ends / benzene-like critical point (b = 1.19e-4)
+        _Point(hi['T'], lo['P'], lo['n'], hi['a'], hi['b'], '562.05', '48.95'),
+    ]
+    if tier == 'thorough':
+        seen = {tuple(sorted(p.val.items())) for p in pts}
+        crit = [(lo['Tc'], lo['Pc']), (hi['Tc'], hi['Pc']), ('507.6', '30.25')]
+        i = 0
+        for T in (lo['T'], hi['T']):
+            for P in (lo['P'], hi['P']):
+                for n in (lo['n'], hi['n']):
+                    for a in (lo['a'], hi['a']):
+                        for b in (lo['b'], hi['b']):
+                            p = _Point(T, P, n, a, b, *crit[i % 3])
+                            i += 1
+                            if tuple(sorted(p.val.items())) not in seen:
+                                seen.add(tuple(sorted(p.val.items())))
+                                pts.append(p)
+    return pts
 
 
 def check(run, repo):
     run.explanation = (
         'The four ideal-gas getters and the van der Waals getters of pmutt/eos are interpreted into exact rational '
-        'normal forms over T, P, V, n, a, b and the unit atoms. Decided as identities for all states: the ideal-gas '
-        'getters are the four solutions of PV=nRT (all 12 solve-and-substitute round trips); for van der Waals '
-        'get_T(get_P(T))=T and get_P(get_T(P))=P, the cubic handed to np.roots equals Vm^2[(P+a/Vm^2)(Vm-b)-RT] '
-        'coefficient for coefficient, so any root satisfies get_P; gas/liquid root is the max/min real root; '
-        'V = n*Vm and n = V/Vm with Vm free of n; from_critical followed by get_Tc/get_Pc returns the inputs, '
-        'Vc=3nb; with a=b=0 the van der Waals forms reduce to the ideal-gas ones.')
+        'normal forms over T, P, V, n, a, b and the unit atoms; objects are built by the public constructors. '
+        'Decided as identities for all states: the ideal-gas getters are the four solutions of PV=nRT (all 12 '
+        'solve-and-substitute round trips); for van der Waals get_T(get_P(T))=T and get_P(get_T(P))=P, the cubic '
+        'handed to np.roots is Vm^2[(P+a/Vm^2)(Vm-b)-RT] times a factor that is never zero, so any root satisfies '
+        'get_P; gas/liquid root is the max/min real root, for the flag given as True/False and as a true/false value '
+        'that is not the singleton; V = n*Vm and n = V/Vm with Vm free of n; from_critical followed by '
+        'get_Tc/get_Pc/get_Vc returns the inputs and 3nb; P_vdW/P_ideal and T_vdW/T_ideal tend to 1 as n/V -> 0. '
+        'Every getter is called on two objects at two states and again on the first (nothing is remembered). '
+        'Comparisons in the analysed code are decided only where they come out the same on the whole box of the '
+        'quantifier (interval arithmetic); in addition every obligation is run at witness points of the box '
+        '(corners, a CO2 state with three real roots) where all comparisons are decided, so that a guard which '
+        'refuses part of the box is reported.')
     run.assumptions = ['np.roots returns the roots of the polynomial whose coefficients it is given (NumPy contract)',
                        'unit model of pmutt.constants as verified by C12']
-    run.undecided = ['root-finding numerics (conditioning of the cubic)', 'the low-density limit as a limit '
-                     '(only the a=b=0 reduction is decided)']
-    body(run, repo, False)
-    # the same obligations with the state given as Python ints (T=500, n=2): dispatch on the type of an argument must
-    # not change the result
-    body(_Suffixed(run, ' [integer arguments]'), repo, True)
+    run.undecided = ['root-finding numerics (conditioning of the cubic)',
+                     'comparisons inside the code are decided on the whole box or at the witness points listed in '
+                     'the evidence, not on every sub-region of the box']
+    # witness points first (concrete instances before symbolic ones): all comparisons decided at that point
+    pts = witnesses(run.tier)
+    for p in pts:
+        body(_Suffixed(run, ' [at %s]' % p.label), repo, 'float', p, False)
+    run.floor('witness points of the box', len(pts), 5)
+    run.sample({'witness_points': [p.label + ' (%d real root%s)' % (p.nreal, 's' if p.nreal > 1 else '')
+                                   for p in pts]})
+    # all states at once: comparisons decided only when they hold on the whole box
+    body(run, repo, 'float', _Box(), True)
+    # the same obligations with the state given as Python ints (T=500, n=2) and as numpy scalars (T from np.arange, a
+    # volume that an earlier getter returned: np.int64 is no int, np.float64 is a float but not of type float):
+    # dispatch on the type of an argument must not change the result
+    body(_Suffixed(run, ' [integer arguments]'), repo, 'int', _Box(ints=True), False)
+    body(_Suffixed(run, ' [numpy integer arguments]'), repo, 'np.int64', _Box(ints=True), False)
+    body(_Suffixed(run, ' [numpy float64 arguments]'), repo, 'np.float64', _Box(), False)
 
 
 class _Suffixed:
@@ -44,59 +270,149 @@ class _Suffixed:
     def fail(self, rule, construct, key, why, *a, **k):
         return self._run.fail(rule, construct, key + self._suffix, why, *a, **k)
 
+    def floor(self, name, count, minimum):
+        return self._run.floor(name + self._suffix, count, minimum)
 
-def body(run, repo, ints):
-    I = Interp(repo)
+
+ARGN = {'get_V': ('T', 'P', 'n'), 'get_P': ('T', 'V', 'n'), 'get_T': ('V', 'P', 'n'), 'get_n': ('V', 'P', 'T')}
+OUT_OF = {'get_V': 'V', 'get_P': 'P', 'get_T': 'T', 'get_n': 'n'}
+ROOT_PAT = r'\{REAL\{ROOT#\d+\}\}'
+
+
+def _user(I, module, text, **names):
+    """value of an expression as a user of the package would write it in a script (a Raised when it raises)"""
+    try:
+        return Frame(I, module, dict(names), None, None).ev(ast.parse(text, mode='eval').body)
+    except _RaisedExc as e:
+        return e.raised
+
+
+def _at_zero(r, atom):
+    """the rational function r at atom = 0 (None when it has a pole there)"""
+    def p0(p):
+        out = {}
+        for k, v in p.t.items():
+            e = dict(k).get(atom, 0)
+            if e < 0:
+                return None
+            if e == 0:
+                out[k] = v
+        return Poly(out)
+    num = p0(r.n)
+    if num is None:
+        return None
+    res = Rat(num)
+    for p, e in r.f.values():
+        d = p0(p)
+        if d is None or d.iszero():
+            return None
+        for _ in range(e):
+            res = res / Rat(d)
+    return res
+
+
+def body(run, repo, kind, order, repeat):
+    I = Interp(repo, order=order)
     I.track_print_precision = True      # a number that is printed and parsed again is a rounded number
-    if ints:
-        I.int_syms.update('TPVn')
     D = I.D
-    T, P, V, n = (D.sym(k) for k in 'TPVn')
-    ig = Obj('ig', repo.cls(EOS + '.IdealGasEOS'))
-    ci = ig.ci
+    ints = kind in ('int', 'np.int64')
+    box = order if isinstance(order, _Box) else _Box(ints)
+    if kind.startswith('np.') and not hasattr(I, 'np_syms'):
+        # an interpreter without a notion of numpy scalar types: the pass is not run, and said so
+        text = 'state given as numpy scalars (np.int64 / np.float64): the interpreter does not distinguish them ' \
+               'from Python numbers, the pass was not run'
+        if text not in run.undecided:
+            run.undecided.append(text)
+        return
     for q in ('get_V', 'get_P', 'get_T', 'get_n'):
         run.fn('%s.IdealGasEOS.%s' % (EOS, q))
-    state = {'T': T, 'P': P, 'V': V, 'n': n}
-    argn = {'get_V': ('T', 'P', 'n'), 'get_P': ('T', 'V', 'n'), 'get_T': ('V', 'P', 'n'), 'get_n': ('V', 'P', 'T')}
-    out_of = {'get_V': 'V', 'get_P': 'P', 'get_T': 'T', 'get_n': 'n'}
+    for q in ('get_Vm', 'get_V', 'get_P', 'get_T', 'get_n', 'get_Pc', 'get_Tc', 'get_Vc', 'from_critical'):
+        run.fn('%s.vanDerWaalsEOS.%s' % (EOS, q))
+    ci = repo.cls(EOS + '.IdealGasEOS')
+    vci = repo.cls(EOS + '.vanDerWaalsEOS')
+    RJ = D.sym('kb') * D.sym('Na')
+    toPa = C(1) / D.sym('U<bar>')
+    Rmb = RJ * D.sym('U<bar>')
 
-    def call(obj, m, st):
-        return I.call_method(obj, m, [], {k: st[k] for k in argn[m]})
+    # two objects of each class, two states: (object, state) 1, then 2, then 1 again - a getter that remembers
+    # anything from an earlier call (a cache keyed without the object, the flag or an argument) answers wrongly
+    world = {}
+    for k in ('', '2') if repeat else ('',):
+        nm = _names(k)
+        st = {q: D.sym(nm[q]) for q in 'TPVn'}
+        if ints:
+            I.int_syms.update(nm[q] for q in 'TPVn')
+        if kind.startswith('np.'):
+            I.np_syms.update({nm[q]: kind[3:] for q in 'TPVn'})
+        a, b = D.sym(nm['a']), D.sym(nm['b'])
+        ig = I.construct(ci, [], {}, name='ig' + k)
+        vw = I.construct(vci, [], {'a': a, 'b': b}, name='vdw' + k)
+        world[k] = (ig, vw, st, a, b)
+    rounds = [('', ''), ('2', ' [second object, second state]'), ('', ' [first object, second call]')] if repeat \
+        else [('', '')]
+    for k, sfx in rounds:
+        ig, vw, st, a, b = world[k]
+        r_ = _Suffixed(run, sfx) if sfx else run
+        ideal_gas(r_, repo, I, ci, ig, st, Rmb)
+        van_der_waals(r_, repo, I, box, ci, vci, ig, vw, st, a, b, RJ, toPa, first=not sfx)
+
+
+def ideal_gas(run, repo, I, ci, ig, state, Rmb):
+    if isinstance(ig, Raised):
+        run.fail('REF.construct', 'IdealGasEOS', 'constructs', 'IdealGasEOS() raises %s' % show(ig),
+                 *repo_loc(repo, ci, 'get_V'))
+        return
+    T, P, V, n = (state[q] for q in 'TPVn')
+
+    def call(m, st):
+        return I.call_method(ig, m, [], {k: st[k] for k in ARGN[m]})
 
     cnt = 0
-    for solve in argn:
-        x = out_of[solve]
-        val = call(ig, solve, state)
+    for solve in ARGN:
+        x = OUT_OF[solve]
+        val = call(solve, state)
         st2 = dict(state)
         st2[x] = val
-        for back in argn:
+        for back in ARGN:
             if back == solve:
                 continue
-            y = out_of[back]
-            got = call(ig, back, st2)
+            y = OUT_OF[back]
+            got = call(back, st2)
             owner, fn = repo.find_method(ci, back)
             run.check(same(got, state[y]), 'ALG.roundtrip', 'IdealGasEOS.' + back, '%s after %s' % (back, solve),
                       'substituting %s from %s into %s gives %s, not %s' % (x, solve, back, show(got), y),
                       owner.module, fn, sample='%s(%s=%s(...)) == %s' % (back, x, solve, y))
             cnt += 1
     # PV = nRT with R in m3 bar/mol/K
-    Vv = call(ig, 'get_V', state)
-    Rmb = D.sym('kb') * D.sym('Na') * D.sym('U<bar>')
+    Vv = call('get_V', state)
     owner, fn = repo.find_method(ci, 'get_V')
     run.check(same(Vv, n * Rmb * T / P), 'REF.idealgas', 'IdealGasEOS.get_V', 'PV=nRT',
               'V is not nRT/P with R in m3 bar/mol/K: %s' % show(Vv), owner.module, fn)
     run.floor('ideal gas round trips', cnt, 12)
 
-    # ---- van der Waals ---------------------------------------------------
-    vci = repo.cls(EOS + '.vanDerWaalsEOS')
-    vw = Obj('vdw', vci)
-    a, b = D.sym('vdw.a'), D.sym('vdw.b')
-    vw.attrs['a'], vw.attrs['b'] = a, b
-    for q in ('get_Vm', 'get_V', 'get_P', 'get_T', 'get_n', 'get_Pc', 'get_Tc', 'get_Vc', 'from_critical'):
-        run.fn('%s.vanDerWaalsEOS.%s' % (EOS, q))
+
+def van_der_waals(run, repo, I, box, ci, vci, ig, vw, state, a, b, RJ, toPa, first):
+    D = I.D
+    T, P, V, n = (state[q] for q in 'TPVn')
+    if first:
+        critical_point(run, repo, I, vci, n, RJ, toPa)
+    if isinstance(vw, Raised):
+        # the constructor is on every path: a gas of the box that cannot be built fails every clause of the property
+        run.fail('REF.construct', 'vanDerWaalsEOS', 'constructs', 'vanDerWaalsEOS(a, b) raises %s for van der Waals '
+                 'parameters of a real gas (a 0.003-3 Pa m6/mol2, b 1e-5-2e-4 m3/mol)' % show(vw),
+                 *repo_loc(repo, vci, '__init__'))
+        return
+    for attr, want in (('a', a), ('b', b)):
+        got = get_public(I, vw, attr)
+        run.check(same(got, want), 'REF.construct', 'vanDerWaalsEOS', 'attribute %s' % attr,
+                  'vanDerWaalsEOS(a, b).%s is %s, not the %s it was given' % (attr, show(got), attr),
+                  *repo_loc(repo, vci, '__init__'))
     # closed-form inverses
     Pv = I.call_method(vw, 'get_P', [], {'T': T, 'V': V, 'n': n})
     Tv = I.call_method(vw, 'get_T', [], {'V': V, 'P': P, 'n': n})
+    # what is substituted back is the pressure / temperature of a state of the box
+    box.fact(Pv, *RANGE['P'])
+    box.fact(Tv, *RANGE['T'])
     owner, fn = repo.find_method(vci, 'get_T')
     got = I.call_method(vw, 'get_T', [], {'V': V, 'P': Pv, 'n': n})
     run.check(same(got, T), 'ALG.roundtrip', 'vanDerWaalsEOS.get_T', 'get_T after get_P',
@@ -107,27 +423,28 @@ def body(run, repo, ints):
     run.check(same(got, P), 'ALG.roundtrip', 'vanDerWaalsEOS.get_P', 'get_P after get_T',
               'get_P(T=get_T(P)) = %s, not P' % show(got), owner.module, fn)
     # textbook: (P + a/Vm^2)(Vm - b) = RT, P in bar <-> Pa
-    RJ = D.sym('kb') * D.sym('Na')
-    toPa = C(1) / D.sym('U<bar>')
     Vm_ = V / n
     want_P = (RJ * T / (Vm_ - b) - a / (Vm_ * Vm_)) / toPa
     run.check(same(Pv, want_P), 'REF.vdw', 'vanDerWaalsEOS.get_P', 'textbook',
               'P is not RT/(Vm-b) - a/Vm^2 (in bar): %s' % show(Pv), owner.module, fn)
-    # cubic
+    # cubic.  The flag as the two singletons and as a true / a false value that is not the singleton (what
+    # `T > T_sat` yields for numpy numbers, or 1 / 0): "if True, return the larger volume"
     owner, fn = repo.find_method(vci, 'get_Vm')
-    for gas in (True, False):
+    flags = [(True, 'MAX', 'True'), (False, 'MIN', 'False'),
+             (C(1), 'MAX', '1 (true, not the singleton True)'), (C(0), 'MIN', '0 (false, not the singleton False)')]
+    for gas, want_kind, gname in flags:
+        is_gas = want_kind == 'MAX'
         r = I.call_method(vw, 'get_Vm', [], {'T': T, 'P': P, 'gas_phase': gas})
-        want_kind = 'MAX' if gas else 'MIN'
-        ok = isinstance(r, Rat) and len(r.atoms()) == 1 and re.fullmatch(want_kind + r'\{REAL\{ROOT#\d+\}\}', list(r.atoms())[0]) is not None \
-            and r.eq(Rat.atom(list(r.atoms())[0]))
-        run.check(ok, 'ORDER.root', 'vanDerWaalsEOS.get_Vm', 'gas_phase=%s' % gas,
+        ok = isinstance(r, Rat) and len(r.atoms()) == 1 and \
+            re.fullmatch(want_kind + ROOT_PAT, list(r.atoms())[0]) is not None and r.eq(Rat.atom(list(r.atoms())[0]))
+        run.check(ok, 'ORDER.root', 'vanDerWaalsEOS.get_Vm', 'gas_phase=%s' % gname,
                   'the %s phase must use the %s real root of the cubic, got %s'
-                  % ('gas' if gas else 'liquid', 'largest' if gas else 'smallest', show(r)), owner.module, fn)
+                  % ('gas' if is_gas else 'liquid', 'largest' if is_gas else 'smallest', show(r)), owner.module, fn)
         if not ok:
             continue
         atom = list(r.atoms())[0]
         co = I.roots[atom]
-        run.check(len(co) == 4, 'REF.cubic', 'vanDerWaalsEOS.get_Vm', 'degree gas=%s' % gas,
+        run.check(len(co) == 4, 'REF.cubic', 'vanDerWaalsEOS.get_Vm', 'degree gas=%s' % gname,
                   'polynomial handed to np.roots has %d coefficients, a cubic has 4' % len(co), owner.module, fn)
         if len(co) != 4:
             continue
@@ -135,48 +452,38 @@ def body(run, repo, ints):
         poly = co[0] * Vm * Vm * Vm + co[1] * Vm * Vm + co[2] * Vm + co[3]
         P_SI = P * toPa
         want = Vm * Vm * ((P_SI + a / (Vm * Vm)) * (Vm - b) - RJ * T)
-        # equal up to a non-zero constant factor (np.roots is scale invariant)
-        kprop = proportional(poly, want)
-        okc = kprop is not None
-        run.check(okc, 'REF.cubic', 'vanDerWaalsEOS.get_Vm', 'coefficients gas=%s' % gas,
-                  'cubic is %s but Vm^2[(P+a/Vm^2)(Vm-b)-RT] = %s' % (show(poly), show(want)), owner.module, fn,
-                  sample={'cubic_from_source': show(poly, 300), 'reference': show(want, 300)})
+        # same roots: the polynomial is the reference times a factor that is zero nowhere on the box - the ratio of
+        # the leading coefficients, whatever it is (a number, 1/P for the monic form, a unit factor); np.roots is
+        # scale invariant
+        lead_ok = box.sign(co[0]) in (1, -1)
+        okc = lead_ok and (poly * P_SI - want * co[0]).iszero()
+        run.check(okc, 'REF.cubic', 'vanDerWaalsEOS.get_Vm', 'coefficients gas=%s' % gname,
+                  'cubic is %s but Vm^2[(P+a/Vm^2)(Vm-b)-RT] = %s%s'
+                  % (show(poly), show(want), '' if lead_ok else ' (leading coefficient not of one sign)'),
+                  owner.module, fn, sample={'cubic_from_source': show(poly, 300), 'reference': show(want, 300)})
         # a root satisfies get_P: (get_P(T, Vm*n, n) - P) * Vm^2 (Vm-b) * toPa == -cubic
         Pr = I.call_method(vw, 'get_P', [], {'T': T, 'V': Vm * n, 'n': n})
         resid = (Pr - P) * toPa * Vm * Vm * (Vm - b) + want
-        run.check(same(resid, C(0)), 'ALG.root-satisfies-P', 'vanDerWaalsEOS.get_Vm', 'get_P at root gas=%s' % gas,
+        run.check(same(resid, C(0)), 'ALG.root-satisfies-P', 'vanDerWaalsEOS.get_Vm', 'get_P at root gas=%s' % gname,
                   'get_P evaluated at a root of the cubic does not return P (residual %s)' % show(resid),
                   owner.module, fn)
         # V = n*Vm ; n = V/Vm ; Vm free of n
         Vg = I.call_method(vw, 'get_V', [], {'T': T, 'P': P, 'n': n, 'gas_phase': gas})
-        at2 = [x for x in Vg.atoms() if re.fullmatch(want_kind + r'\{REAL\{ROOT#\d+\}\}', x)] if isinstance(Vg, Rat) else []
+        at2 = [x for x in Vg.atoms() if re.fullmatch(want_kind + ROOT_PAT, x)] if isinstance(Vg, Rat) else []
         o2, f2 = repo.find_method(vci, 'get_V')
+        n_atom = next(iter(n.atoms()))
         ok2 = len(at2) == 1 and Vg.eq(Rat.atom(at2[0]) * n) and \
-            all('n' not in c_.atoms() for c_ in I.roots[at2[0]]) and \
+            all(n_atom not in c_.atoms() for c_ in I.roots[at2[0]]) and \
             all(x.eq(y) for x, y in zip(I.roots[at2[0]], co))
-        run.check(ok2, 'REF.V=n*Vm', 'vanDerWaalsEOS.get_V', 'gas=%s' % gas,
+        run.check(ok2, 'REF.V=n*Vm', 'vanDerWaalsEOS.get_V', 'gas=%s' % gname,
                   'V is not n times the molar volume root (which must not depend on n): %s' % show(Vg), o2.module, f2)
         ng = I.call_method(vw, 'get_n', [], {'V': V, 'P': P, 'T': T, 'gas_phase': gas})
-        at3 = [x for x in ng.atoms() if re.fullmatch(want_kind + r'\{REAL\{ROOT#\d+\}\}', x)] if isinstance(ng, Rat) else []
+        at3 = [x for x in ng.atoms() if re.fullmatch(want_kind + ROOT_PAT, x)] if isinstance(ng, Rat) else []
         o3, f3 = repo.find_method(vci, 'get_n')
         ok3 = len(at3) == 1 and ng.eq(V / Rat.atom(at3[0])) and all(x.eq(y) for x, y in zip(I.roots[at3[0]], co))
-        run.check(ok3, 'REF.n=V/Vm', 'vanDerWaalsEOS.get_n', 'gas=%s' % gas,
+        run.check(ok3, 'REF.n=V/Vm', 'vanDerWaalsEOS.get_n', 'gas=%s' % gname,
                   'n is not V divided by the molar volume root: %s' % show(ng), o3.module, f3)
     # critical constants
-    Tc, Pc = D.sym('Tc'), D.sym('Pc')
-    owner, fn = repo.find_method(vci, 'from_critical')
-    o = I.call_method(vw, 'from_critical', [], {'Tc': Tc, 'Pc': Pc})
-    if not isinstance(o, Obj):
-        run.fail('REF.critical', 'vanDerWaalsEOS.from_critical', 'constructs', 'from_critical does not build an '
-                 'equation of state (%s)' % show(o), owner.module, fn)
-    else:
-        gTc = I.call_method(o, 'get_Tc', [], {})
-        gPc = I.call_method(o, 'get_Pc', [], {})
-        run.check(same(gTc, Tc), 'ALG.roundtrip', 'vanDerWaalsEOS.get_Tc', 'Tc after from_critical',
-                  'from_critical(Tc, Pc).get_Tc() = %s, not Tc' % show(gTc), owner.module, fn,
-                  sample='from_critical(Tc,Pc).get_Tc() == Tc')
-        run.check(same(gPc, Pc), 'ALG.roundtrip', 'vanDerWaalsEOS.get_Pc', 'Pc after from_critical',
-                  'from_critical(Tc, Pc).get_Pc() = %s, not Pc' % show(gPc), owner.module, fn)
     Vc = I.call_method(vw, 'get_Vc', [], {'n': n})
     o4, f4 = repo.find_method(vci, 'get_Vc')
     run.check(same(Vc, 3 * n * b), 'REF.critical', 'vanDerWaalsEOS.get_Vc', 'Vc=3nb', 'Vc is %s, not 3nb' % show(Vc),
@@ -186,20 +493,66 @@ def body(run, repo, ints):
               'vanDerWaalsEOS.get_Tc', 'Tc=8a/27bR', 'Tc is not 8a/(27 b R)', *repo_loc(repo, vci, 'get_Tc'))
     run.check(same(I.call_method(vw, 'get_Pc', [], {}), a / (27 * b * b) / toPa), 'REF.critical',
               'vanDerWaalsEOS.get_Pc', 'Pc=a/27b^2', 'Pc is not a/(27 b^2) in bar', *repo_loc(repo, vci, 'get_Pc'))
-    # a = b = 0 reduces to the ideal gas
-    z = Obj('vdw0', vci, attrs={'a': C(0), 'b': C(0)})
-    for m in ('get_P', 'get_T'):
-        st = {'T': T, 'P': P, 'V': V, 'n': n}
-        got = I.call_method(z, m, [], {k: st[k] for k in argn[m]})
-        want = call(ig, m, st)
-        o5, f5 = repo.find_method(vci, m)
-        run.check(same(got, want), 'REF.ideal-limit', 'vanDerWaalsEOS.' + m, 'a=b=0',
-                  'with a=b=0 %s gives %s but the ideal gas gives %s' % (m, show(got), show(want)), o5.module, f5)
+    # low density: P_vdW / P_ideal and T_vdW / T_ideal at V = n/rho tend to 1 as rho -> 0
+    if not isinstance(ig, Raised):
+        rho = D.sym('rho')
+        for m, x in (('get_P', 'P'), ('get_T', 'T')):
+            st = dict(state)
+            st['V'] = n / rho
+            got = I.call_method(vw, m, [], {k_: st[k_] for k_ in ARGN[m]})
+            ideal = I.call_method(ig, m, [], {k_: st[k_] for k_ in ARGN[m]})
+            lim = _at_zero(got / ideal, 'rho') if isinstance(got, Rat) and isinstance(ideal, Rat) and \
+                not ideal.iszero() else None
+            o5, f5 = repo.find_method(vci, m)
+            run.check(lim is not None and same(lim, C(1)), 'REF.ideal-limit', 'vanDerWaalsEOS.' + m, 'n/V -> 0',
+                      '%s of the van der Waals gas divided by the ideal-gas %s tends to %s, not 1, as the density '
+                      'goes to zero' % (x, x, show(lim) if lim is not None else 'no finite limit'), o5.module, f5)
+    if not first:
+        return
+    # a = b = 0 reduces to the ideal gas (when the constructor accepts the limit - it is outside the box)
+    z = I.construct(vci, [], {'a': C(0), 'b': C(0)}, name='vdw0')
+    if isinstance(z, Obj) and not isinstance(ig, Raised):
+        for m in ('get_P', 'get_T'):
+            got = I.call_method(z, m, [], {k_: state[k_] for k_ in ARGN[m]})
+            want = I.call_method(ig, m, [], {k_: state[k_] for k_ in ARGN[m]})
+            o5, f5 = repo.find_method(vci, m)
+            run.check(same(got, want), 'REF.ideal-limit', 'vanDerWaalsEOS.' + m, 'a=b=0',
+                      'with a=b=0 %s gives %s but the ideal gas gives %s' % (m, show(got), show(want)), o5.module, f5)
+
+
+def critical_point(run, repo, I, vci, n, RJ, toPa):
+    D = I.D
+    # construction from the critical point, then the getters.  The critical points the property quantifies over are
+    # those of the gases of the box: (Tc, Pc) is written through the (a, b) of such a gas - a one-to-one
+    # reparametrisation, so an identity in (crit.a, crit.b) is an identity in (Tc, Pc) - which lets the box oracle
+    # decide what the constructor asks about a and b
+    ac, bc = D.sym('crit.a'), D.sym('crit.b')
+    Tc, Pc = 8 * ac / (27 * bc * RJ), ac / (27 * bc * bc) / toPa
+    owner, fn = repo.find_method(vci, 'from_critical')
+    # as a user writes it: called on the class
+    o = _user(I, vci.module, 'vanDerWaalsEOS.from_critical(Tc=Tc_, Pc=Pc_)', Tc_=Tc, Pc_=Pc)
+    if not isinstance(o, Obj):
+        run.fail('REF.critical', 'vanDerWaalsEOS.from_critical', 'constructs', 'from_critical does not build an '
+                 'equation of state for the critical point of a gas of the box (%s)' % show(o), owner.module, fn)
+    else:
+        gTc = I.call_method(o, 'get_Tc', [], {})
+        gPc = I.call_method(o, 'get_Pc', [], {})
+        run.check(same(gTc, Tc), 'ALG.roundtrip', 'vanDerWaalsEOS.get_Tc', 'Tc after from_critical',
+                  'from_critical(Tc, Pc).get_Tc() = %s, not Tc = %s' % (show(gTc), show(Tc)), owner.module, fn,
+                  sample='from_critical(Tc,Pc).get_Tc() == Tc')
+        run.check(same(gPc, Pc), 'ALG.roundtrip', 'vanDerWaalsEOS.get_Pc', 'Pc after from_critical',
+                  'from_critical(Tc, Pc).get_Pc() = %s, not Pc = %s' % (show(gPc), show(Pc)), owner.module, fn)
+        gVc = I.call_method(o, 'get_Vc', [], {'n': n})
+        run.check(same(gVc, 3 * n * RJ * Tc / (8 * Pc * toPa)), 'REF.critical', 'vanDerWaalsEOS.get_Vc',
+                  'Vc after from_critical', 'from_critical(Tc, Pc).get_Vc(n) = %s, not 3 n b with b = R Tc / 8 Pc'
+                  % show(gVc), owner.module, fn)
 
 
 def repo_loc(repo, ci, m):
-    owner, fn = repo.find_method(ci, m)
-    return owner.module, fn
+    got = repo.find_method(ci, m, missing_ok=True)
+    if not got:
+        return ci.module, ci.node
+    return got[0].module, got[1]
 
 
 E = 'pmutt/eos/__init__.py'
@@ -216,7 +569,66 @@ MUTANTS = [
      'edits': [(E, "return (P * c.convert_unit(initial='bar', final='Pa') + self.a / Vm**2)", "return (P + self.a / Vm**2)")]},
     {'name': 'Vc = 3b (n dropped)', 'expect': ('REF.critical', 'get_Vc'),
      'edits': [(E, 'return 3. * n * self.b', 'return 3. * self.b')]},
+    # white-box round 2
+    {'name': 'gas root only for the singleton True (A3)', 'expect': ('ORDER.root', 'get_Vm'),
+     'edits': [(E, '        if gas_phase:\n            return np.max(real_Vm)',
+                '        if gas_phase is True:\n            return np.max(real_Vm)')]},
+    {'name': 'liquid root only for the singleton False', 'expect': ('ORDER.root', 'get_Vm'),
+     'edits': [(E, '        if gas_phase:\n            return np.max(real_Vm)',
+                '        if gas_phase is not False:\n            return np.max(real_Vm)')]},
+    {'name': 'constructor asserts b < 1e-4 (A4)', 'expect': ('REF.construct', 'vanDerWaalsEOS'),
+     'edits': [(E, '        self.a = a\n', "        assert 0. < b < 1.e-4, 'b should be in m3/mol'\n        self.a = a\n")]},
+    {'name': 'constructor refuses a > 1', 'expect': ('REF.construct', 'vanDerWaalsEOS'),
+     'edits': [(E, '        self.a = a\n', "        if a > 1.:\n            raise ValueError('a should be in Pa m6/mol2')\n"
+                                           "        self.a = a\n")]},
+    {'name': 'get_Vm refuses numbers that are not int/float: numpy integers (A5)', 'expect': ('ORDER.root', 'get_Vm'),
+     'edits': [(E, "        P_SI = P * c.convert_unit(initial='bar', final='Pa')\n        Vm = np.roots([",
+                "        if not isinstance(T, (int, float)) or not isinstance(P, (int, float)):\n"
+                "            raise TypeError('T and P should be numbers')\n"
+                "        P_SI = P * c.convert_unit(initial='bar', final='Pa')\n        Vm = np.roots([")]},
+    {'name': 'positivity check that also sees the flag (A1, inlined)', 'expect': ('ORDER.root', 'get_Vm'),
+     'edits': [(E, "        P_SI = P * c.convert_unit(initial='bar', final='Pa')\n        Vm = np.roots([",
+                "        for val in (T, P, gas_phase):\n            if val <= 0.:\n"
+                "                raise ValueError('T and P must be positive')\n"
+                "        P_SI = P * c.convert_unit(initial='bar', final='Pa')\n        Vm = np.roots([")]},
+    {'name': 'get_Tc remembered across objects', 'expect': ('REF.critical', 'get_Tc'),
+     'edits': [(E, 'class IdealGasEOS(_pmuttBase):', '_TC = {}\n\n\nclass IdealGasEOS(_pmuttBase):'),
+               (E, "return 8. * self.a / 27. / self.b / c.R('J/mol/K')",
+                "return _TC.setdefault('Tc', 8. * self.a / 27. / self.b / c.R('J/mol/K'))")]},
+    {'name': 'from_critical: Vc inconsistent (b stored halved after a)', 'expect': ('', 'vanDerWaalsEOS'),
+     'edits': [(E, 'return cls(a=a, b=b)', 'return cls(a=a, b=b / 2.)')]},
+]
+# armed when the interpreter models what they need (/tmp/gaps2/REQ2_C20.md): today each is an analysis error or silent
+PENDING = [
+    {'name': 'get_Vm accepts only type float: what get_V returns is np.float64', 'expect': ('ORDER.root', 'get_Vm'),
+     'edits': [(E, "        P_SI = P * c.convert_unit(initial='bar', final='Pa')\n        Vm = np.roots([",
+                "        if type(T) is not float and type(T) is not int:\n"
+                "            raise TypeError('T should be a number')\n"
+                "        P_SI = P * c.convert_unit(initial='bar', final='Pa')\n        Vm = np.roots([")]},
 ]
 EQUIV = [
     {'name': 'ideal get_P rearranged', 'edits': [(E, "return n * c.R('m3 bar/mol/K') * T / V", "return T / V * c.R('m3 bar/mol/K') * n")]},
+    # white-box round 2
+    {'name': 'builtin max/min of the real roots (B2)',
+     'edits': [(E, 'return np.max(real_Vm)', 'return max(real_Vm)'), (E, 'return np.min(real_Vm)', 'return min(real_Vm)')]},
+    {'name': 'monic cubic, textbook spelling (B3)',
+     'edits': [(E, "P_SI, -(P_SI * self.b + c.R('J/mol/K') * T), self.a,",
+                "1., -(self.b + c.R('J/mol/K') * T / P_SI), self.a / P_SI,"),
+               (E, '            -self.a * self.b\n', '            -self.a * self.b / P_SI\n')]},
+    {'name': 'cubic written in bar',
+     'edits': [(E, "P_SI, -(P_SI * self.b + c.R('J/mol/K') * T), self.a,",
+                "P, -(P * self.b + c.R('m3 bar/mol/K') * T), self.a * c.convert_unit(initial='Pa', final='bar'),"),
+               (E, '            -self.a * self.b\n',
+                "            -self.a * self.b * c.convert_unit(initial='Pa', final='bar')\n")]},
+    {'name': 'constructor asserts generous unit bounds',
+     'edits': [(E, '        self.a = a\n', "        assert 0. < a < 100., 'a should be in Pa m6/mol2'\n"
+                                           "        assert 0. < b < 1.e-3, 'b should be in m3/mol'\n        self.a = a\n")]},
+    {'name': 'positivity check of T and P',
+     'edits': [(E, "        P_SI = P * c.convert_unit(initial='bar', final='Pa')\n        Vm = np.roots([",
+                "        for val in (T, P):\n            if val <= 0.:\n"
+                "                raise ValueError('T and P must be positive')\n"
+                "        P_SI = P * c.convert_unit(initial='bar', final='Pa')\n        Vm = np.roots([")]},
+    {'name': 'flag through bool()',
+     'edits': [(E, '        if gas_phase:\n            return np.max(real_Vm)',
+                '        if bool(gas_phase):\n            return np.max(real_Vm)')]},
 ]
